@@ -57,6 +57,11 @@ THEOREMS = [
     ("DastardV.Props.C03", "DastardV.C03.fill_inserts_exactly_gaps"),
     ("DastardV.Lemmas.ComposeUdp", "DastardV.UdpPk.udp_packets_fifo"),
     ("DastardV.Lemmas.ComposeUdp", "DastardV.UdpPk.udp_packets_fifo_ingest"),
+    ("DastardV.Lemmas.ComposeUdpFiles", "DastardV.UdpPk.recvTicks_flatten"),
+    ("DastardV.Lemmas.ComposeUdpFiles", "DastardV.UdpPk.udp_ticks_are_sent"),
+    ("DastardV.Lemmas.ComposeUdpFiles", "DastardV.UdpPk.udp_junk_is_dropped"),
+    ("DastardV.Lemmas.ComposeUdpFiles", "DastardV.UdpPk.udp_to_ljh22_files"),
+    ("DastardV.Lemmas.ComposeUdpFiles", "DastardV.UdpPk.udp_junk_to_ljh22_files"),
     ("DastardV.Lemmas.C03a", "DastardV.C03.demux_deinterleave"),
     ("DastardV.Lemmas.C03a", "DastardV.C03.pretend_chan"),
     ("DastardV.Props.C03", "DastardV.C03.C03_no_panic"),
